@@ -279,3 +279,153 @@ func runC06_9(c *core.Ctx) {
 		}
 	}
 }
+
+func init() {
+	register(&core.Rule{ID: "C06.10", Prop: "C06", MinSites: 2,
+		Desc: "closeConns reaches every connection: it iterates the loop's registry with a visitor that closes its argument through el.close on every path and always asks for the next one (returns true)",
+		Run: runC06_10})
+	register(&core.Rule{ID: "C06.11", Prop: "C06", MinSites: 1,
+		Desc: "closing cannot spin: in eventloop.close the loop that flushes residual output leaves on the error edge of its Writev (a socket that is not writable must not keep the loop, and with it shutdown, busy forever)",
+		Run: runC06_11})
+}
+
+func runC06_10(c *core.Ctx) {
+	f := getFn(c, "", "eventloop.closeConns")
+	closeFn := c.P.Func("", "eventloop.close")
+	if f == nil || !c.Need("eventloop.close", closeFn) {
+		return
+	}
+	var lit *ast.FuncLit
+	for _, call := range callsIn(f.Decl.Body, false) {
+		cf := flow.CalleeFunc(f.Info, call)
+		if cf != nil && cf.Name() == "iterate" && len(call.Args) == 1 {
+			if fl, ok := ast.Unparen(call.Args[0]).(*ast.FuncLit); ok {
+				lit = fl
+			}
+		}
+	}
+	if lit == nil {
+		c.Violate(f.Name, "iterates the registry", f.Decl.Pos(), "closeConns no longer walks el.connections with a visitor: connections that are still open when the loop exits get no OnClose and their descriptors stay open")
+		return
+	}
+	c.Ok(f.Name, "iterates the registry", lit.Pos(), "el.connections.iterate(visitor)")
+	var param types.Object
+	if ps := lit.Type.Params.List; len(ps) == 1 && len(ps[0].Names) == 1 {
+		param = f.Info.Defs[ps[0].Names[0]]
+	}
+	g := flow.New(c.P.Fset, f.Info, lit.Body)
+	p := &flow.Problem{Must: true}
+	p.Node = func(b *flow.Block, i int, n ast.Node, in uint64) uint64 {
+		for _, call := range flow.Calls(n) {
+			if flow.IsCall(f.Info, call, closeFn) && len(call.Args) >= 1 && flow.ObjOf(f.Info, call.Args[0]) == param && param != nil {
+				in |= 1
+			}
+		}
+		return in
+	}
+	sol := g.Solve(p)
+	okAll, n := true, 0
+	why := ""
+	sol.AtExit(func(b *flow.Block, facts uint64) {
+		n++
+		if facts&1 == 0 {
+			okAll, why = false, "a path of the visitor returns without closing its connection"
+		}
+		if len(b.Return.Results) != 1 {
+			okAll, why = false, "the visitor does not return a single bool"
+			return
+		}
+		if tv, ok := f.Info.Types[b.Return.Results[0]]; !ok || tv.Value == nil || tv.Value.String() != "true" {
+			okAll, why = false, "the visitor can stop the iteration (returns something other than the constant true)"
+		}
+	})
+	c.Check(okAll && n > 0, f.Name, "visitor closes and continues", lit.Pos(), "every path: el.close(c, …) then return true",
+		why+": connections still open at loop exit would miss their OnClose and keep their descriptors")
+}
+
+func runC06_11(c *core.Ctx) {
+	f := getFn(c, "", "eventloop.close")
+	a := outAnchors(c)
+	if f == nil || a == nil {
+		return
+	}
+	g := f.Graph()
+	// the block that evaluates the flush loop's condition
+	var head *flow.Block
+	for _, b := range g.Blocks {
+		for _, n := range b.Nodes {
+			if e, ok := n.(ast.Expr); ok {
+				for _, call := range flow.Calls(e) {
+					if a.onOutbound(f, call, a.isEmpty) {
+						for _, s := range b.Succs {
+							if s.Cond != nil {
+								head = b
+							}
+						}
+					}
+				}
+			}
+		}
+	}
+	if head == nil {
+		c.Ok(f.Name, "residual flush", f.Decl.Pos(), "no flush loop on the outbound buffer in close (nothing can spin)")
+		return
+	}
+	// error variable of the Writev inside the loop
+	var errObj types.Object
+	ast.Inspect(f.Decl.Body, func(n ast.Node) bool {
+		if as, ok := n.(*ast.AssignStmt); ok && len(as.Rhs) == 1 && len(as.Lhs) == 2 {
+			if call, ok := ast.Unparen(as.Rhs[0]).(*ast.CallExpr); ok {
+				if d, _ := a.streamWrite(f, call); d != nil {
+					errObj = flow.ObjOf(f.Info, as.Lhs[1])
+				}
+			}
+		}
+		return true
+	})
+	if errObj == nil {
+		c.Undecided(f.Name, "residual flush", f.Decl.Pos(), "the flush loop's write syscall and its error variable were not found")
+		return
+	}
+	reach := func(from *flow.Block) bool {
+		seen := map[*flow.Block]bool{}
+		var walk func(b *flow.Block) bool
+		walk = func(b *flow.Block) bool {
+			if b == head {
+				return true
+			}
+			if seen[b] {
+				return false
+			}
+			seen[b] = true
+			for _, e := range b.Succs {
+				if walk(e.To) {
+					return true
+				}
+			}
+			return false
+		}
+		return walk(from)
+	}
+	found := false
+	for _, b := range g.Blocks {
+		for _, e := range b.Succs {
+			if e.Cond == nil || e.Tag != nil {
+				continue
+			}
+			x, y, op, ok := flow.Cmp(e.Cond)
+			if !ok || flow.ObjOf(f.Info, x) != errObj || !flow.IsNil(f.Info, y) {
+				continue
+			}
+			if (op == token.NEQ) != e.Sense {
+				continue // the err == nil side
+			}
+			found = true
+			c.Check(!reach(e.To), f.Name, "Writev error leaves the flush loop", e.Cond.Pos(), "the error edge does not lead back to the loop condition",
+				"after a failed Writev (EAGAIN on a full socket, EPIPE, …) the residual-flush loop of close() goes round again: nothing was discarded, so it spins forever, the connection never closes and a shutdown never completes")
+		}
+	}
+	if !found {
+		c.Violate(f.Name, "Writev error leaves the flush loop", f.Decl.Pos(), "the error of the flush loop's Writev is never tested: a failing write keeps the loop running forever")
+	}
+}
